@@ -35,6 +35,12 @@ struct Reg {
     vid: u32,
     lo: u64,
     hi: u64,
+    /// clock interval of the latest invalidate_all linearized so far (0,0 = none). The
+    /// properties define its targets by clock *reading* ("inserted at a strictly earlier
+    /// clock reading"), so a write that read its clock before such a call but took effect
+    /// after it (it blocked on a shard lock in between) is hidden as well.
+    va_lo: u64,
+    va_hi: u64,
 }
 
 /// Expiry configuration for the strict register: a strict read may still observe nothing
@@ -62,7 +68,7 @@ pub fn check_key_exp(events: &[LinEvent], strict: bool, exp: Expiry) -> Result<(
         return Ok(()); // bounded; generators never exceed this
     }
     let mut memo: HashSet<(u32, Reg)> = HashSet::new();
-    let init = Reg { vid: 0, lo: 0, hi: 0 };
+    let init = Reg { vid: 0, lo: 0, hi: 0, va_lo: 0, va_hi: 0 };
     if search(events, 0u32, init, strict, exp, &mut memo) {
         Ok(())
     } else {
@@ -99,16 +105,28 @@ fn search(ev: &[LinEvent], done: u32, reg: Reg, strict: bool, exp: Expiry, memo:
         let nd = done | (1 << i);
         match &e.op {
             LinOp::Write { vid, clock } => {
-                if search(ev, nd, Reg { vid: *vid, lo: clock.0, hi: clock.1 }, strict, exp, memo) {
+                let may_hidden = clock.0 < reg.va_hi;
+                let may_visible = clock.1 >= reg.va_lo;
+                if may_visible
+                    && search(ev, nd, Reg { vid: *vid, lo: clock.0, hi: clock.1, ..reg }, strict, exp, memo)
+                {
+                    return true;
+                }
+                if may_hidden && search(ev, nd, Reg { vid: 0, lo: 0, hi: 0, ..reg }, strict, exp, memo) {
                     return true;
                 }
             }
             LinOp::Remove => {
-                if search(ev, nd, Reg { vid: 0, lo: 0, hi: 0 }, strict, exp, memo) {
+                if search(ev, nd, Reg { vid: 0, lo: 0, hi: 0, ..reg }, strict, exp, memo) {
                     return true;
                 }
             }
             LinOp::RemoveAll { clock } => {
+                let reg = Reg {
+                    va_lo: reg.va_lo.max(clock.0),
+                    va_hi: reg.va_hi.max(clock.1),
+                    ..reg
+                };
                 if reg.vid == 0 {
                     if search(ev, nd, reg, strict, exp, memo) {
                         return true;
@@ -117,7 +135,7 @@ fn search(ev: &[LinEvent], done: u32, reg: Reg, strict: bool, exp: Expiry, memo:
                     // removed iff t_insert < t_call; both are intervals
                     let may_remove = reg.lo < clock.1;
                     let may_keep = reg.hi >= clock.0;
-                    if may_remove && search(ev, nd, Reg { vid: 0, lo: 0, hi: 0 }, strict, exp, memo) {
+                    if may_remove && search(ev, nd, Reg { vid: 0, lo: 0, hi: 0, ..reg }, strict, exp, memo) {
                         return true;
                     }
                     if may_keep && search(ev, nd, reg, strict, exp, memo) {
